@@ -1,4 +1,4 @@
 From Coq Require Import ExtrOcamlBasic NArith.
-From LLRP Require Import Client.Stream Client.Hostile Client.DeviceHostile.
+From LLRP Require Import Client.Stream Client.Hostile Client.DeviceHostile Client.StatusText.
 Extraction Language OCaml.
-Extraction "model.ml" session frame_bytes dev_run probe_after.
+Extraction "model.ml" session frame_bytes dev_run probe_after default_text.
